@@ -5,3 +5,4 @@
 pub mod fx;
 pub mod eq;
 pub mod ai;
+pub mod list;
